@@ -43,7 +43,7 @@ func runC13(c *Ctx) {
 	pow := map[string]bool{"Index": true, "PrevTimestamps": true, "Depth": true, "ChildTarget": true, "OakTime": true, "OakTarget": true, "TotalWork": true, "Difficulty": true, "OakWork": true}
 	allowed := map[string]string{
 		"consensus.ApplyHeader":            "the one place the proof-of-work state advances",
-		"(consensus.State).DecodeFrom":    "decoding",
+		"(consensus.State).DecodeFrom":     "decoding",
 		"(consensus.Network).GenesisState": "genesis construction",
 	}
 	writers := map[string]bool{}
